@@ -19,11 +19,11 @@ def run(rep, tier, replay):
     xtab = [t for t in shapes.EXPAND_QUICK if t[0] in names]
     if tier == "thorough":
         xtab = shapes.EXPAND_THOROUGH_FIXED + [shapes.random_expand_shape(rng, i) for i in range(16)]
-    mbad = sched.mc_legs(rep, [("expand", xtab)], pol, timeout=1200 if tier == "thorough" else 900)
+    mbad = sched.mc_legs(rep, [("expand", xtab)], pol, timeout=600 if tier == "thorough" else 900)
     for name, c, r in mbad:
         rep.sample({"model_counterexample": name, "violated": r.violated, "temporal": r.temporal, "shape": c})
     files = sched.planted_files(rng)
-    seeds = range(5 if tier == "quick" else 40)
+    seeds = range(5 if tier == "quick" else 20)
     configs = ((3, 4, 3, 4096), (2, 2, 3, 8192), (3, 3, 4, 2048), (4, 16, 64, 65536), (1, 2, 3, 4096))
     cases = sched.expand_cases(files, seeds, configs)
     runs = sched.run_cases(exe, cases)
